@@ -13,7 +13,7 @@ from . import c04
 ID = "C33"
 LEVEL = "exploration"
 BUDGET = {"quick": 30, "thorough": 360}
-FLOOR = {"quick": 60, "thorough": 120}
+FLOOR = {"quick": 25, "thorough": 50}
 RULE = ("source fuzz over the repository corpus (function examples, lib/tests .vrl) and generated programs, "
         "weighted to mutants that still reach semantic analysis, with multi-byte characters injected next "
         "to the reported constructs (exotic whitespace, combining marks, 4-byte characters). Non-trivial: "
